@@ -81,6 +81,8 @@ def _gen_spec(rng, nS, nP, kind, order_variant, weight_kind):
     n = len(times)
     k_obs = int(rng.integers(1, nS + 1))
     obs_i = sorted(rng.choice(nS, size=k_obs, replace=False).tolist())
+    if k_obs == 1 and rng.random() < 0.1:
+        times, n = times[-1:], 1          # a single observation of a single state
     target = None
     if nP >= 2 and rng.random() < 0.4:
         q = int(rng.integers(1, nP + 1))
